@@ -52,6 +52,17 @@ NOW = D(2025, 1, 2, 3, 4, 5)
 
 
 def mk_entry(n, when, status='success', runid=None):
+    e = _mk_entry(n, when, status, runid)
+    if n % 2 == 1 and hasattr(when, 'year'):
+        # other timestamps of the run, on another calendar day, listed after
+        # 'completed' (the journal is organised by completion time only)
+        import datetime as _d
+        e['timing']['started'] = str(when - _d.timedelta(hours=26))
+        e['timing']['loaded'] = str(when - _d.timedelta(hours=25))
+    return e
+
+
+def _mk_entry(n, when, status='success', runid=None):
     return {
         'changeset': 'rev',
         'runid': runid if runid is not None else 1 + n % 2,
@@ -357,7 +368,16 @@ def phase_c(args):
                     e = dict(e)
                     e['_when'] = MENU[mi]
                     appended.append(e)
-                for after, before in windows:
+                import datetime as _dtm
+                zones = (None, _dtm.timezone(_dtm.timedelta(hours=2)), _dtm.timezone(_dtm.timedelta(hours=-7)))
+                for (after, before), zone in itertools.product(windows, zones):
+                    if zone is not None and after is None and before is None:
+                        continue
+
+                    def iso(t):
+                        # the same instant written with another UTC offset
+                        return (t if zone is None else t.astimezone(zone)).isoformat()
+
                     for limit in (None, 2):
                         if after is None and before is None and limit is None:
                             continue
@@ -365,8 +385,8 @@ def phase_c(args):
                             ctx.count('api_calls')
                             try:
                                 raw = fn(
-                                    after=[after.isoformat()] if after else None,
-                                    before=[before.isoformat()] if before else None,
+                                    after=[iso(after)] if after else None,
+                                    before=[iso(before)] if before else None,
                                     limit=[str(limit)] if limit else None)
                                 got = json.loads(raw)['content']
                             except Exception as ex:  # noqa
@@ -378,9 +398,10 @@ def phase_c(args):
                             bad = judge(got, appended, after, before, limit, status)
                             if bad:
                                 ctx.violation(
-                                    f'C18/api-{bad[0]}/{culprit(appended, after, before, limit)}',
+                                    f'C18/api-{bad[0]}/{culprit(appended, after, before, limit)}'
+                                    + ('' if zone is None else '/bounds-written-with-utc-offset'),
                                     f'{fn.__name__}(after={wname(after)}, before='
-                                    f'{wname(before)}, limit={limit}): {bad[1]}',
+                                    f'{wname(before)}, limit={limit}, bounds written in zone {zone}): {bad[1]}',
                                     rep(appended, after, before, limit, status, True))
         return ctx.export()
     finally:
